@@ -13,6 +13,20 @@ COMMON_NOTE = ("Trusted: Lean 4.33.0 kernel; axioms per theorem as printed by #p
 
 # property id -> dict(level, text, technique, note, design_ref)
 CLAIMED = {
+    "C01": dict(
+        level="proof",
+        text="A Lean reference interpreter for a core fragment written from ECMA-262's own notions: completion records with completion values "
+             "and UpdateEmpty, environments as mutable scope records (var hoisting, let/const with the temporal dead zone, per-iteration copies "
+             "of for-let bindings, closures over the chain), function-declaration hoisting, labels, break/continue, return, throw, "
+             "try/catch/finally, integer/boolean/string values with NaN from undefined. Theorems about it (the laws the engine is compared "
+             "against): updateEmpty_value / updateEmpty_idem / updateEmpty_kind, execL_abrupt (nothing after an abrupt statement runs), "
+             "execL_normal, finally_overrides (an abruptly completing finally block overrides any earlier completion), finally_transparent. "
+             "The interpreter is the executable spec: on generated programs of the fragment the engine's printed trace AND its completion "
+             "(value, or class of the uncaught error) must equal the model's. The clauses about the origin of the text and the way the "
+             "engine is entered are differentials on richer programs (script / function call / indirect eval / new Function).",
+        technique="Lean 4 reference interpreter (completion records, environments) with proved completion laws + model-predicted vs real trace and completion on generated programs + entry-route differentials",
+        note="PARTIAL: objects, coercions, generators, destructuring and classes are outside the Lean fragment (only covered by the route differentials).",
+    ),
     "C17": dict(
         level="proof",
         text="Lean model of Evaluate / InnerModuleEvaluation for modules without top-level await, as in ECMA-262 16.2.1.5.3: DFS and ancestor "
